@@ -1311,6 +1311,20 @@ def r_rotate(f):
             else:
                 ok = grew_before or not shrinks_after
                 want = "an earlier append (it moves the end block to the front)"
+            # ... and by the same amount: rotate_left(k) parks exactly the k cells that `drain(len - k..)` then removes
+            if fn["name"] == "rotate_left" and len(t["args"]) == 2:
+                kr = show(strip(d.expr(t["args"][1])))
+                for sbi, st_, sfn in b.calls():
+                    if sfn and sfn["name"] == "drain" and "alloc::vec::Vec" in sfn["path"] and sbi in after and len(st_["args"]) == 2:
+                        re_ = strip(d.expr(st_["args"][1]))
+                        if re_[0] == "agg" and re_[1].endswith("RangeFrom") and len(re_[2]) == 1:
+                            st0 = strip(re_[2][0])
+                            if st0[0] == "bin" and st0[1].startswith("Sub") and strip(st0[2])[0] == "call" and strip(st0[2])[2] == "len":
+                                kd = show(strip(st0[3]))
+                                n += 1
+                                R.inst(b.ident, "rotate_left(%s) parks what drain(len - %s ..) removes" % (kr, kd), kr == kd)
+                                if kr != kd:
+                                    R.fail(b.ident, "amount:%s!=%s" % (kr, kd), "%s rotates %s cells to the end of the buffer but drains the last %s: the cells removed are not the line that was parked there" % (b.ident, kr, kd), b.where(st_["span"]))
             R.inst(b.ident, "%s is paired with %s" % (fn["name"], want), ok)
             if not ok:
                 R.fail(b.ident, "direction:%s" % fn["name"], "%s uses %s where the surrounding code (%s) needs the other direction: %s belongs with %s" % (b.ident, fn["name"], "cells appended before, nothing removed after" if fn["name"] == "rotate_left" else "tail removed after, nothing appended before", fn["name"], want), b.where(t["span"]))
